@@ -188,7 +188,12 @@ def judge_attributes(entry, reported, v, buckets, label, path):
             continue        # 2.0: deprecated, tolerated if it carries the default
         if name in INTRINSIC:
             own = entry["intrinsic"].get(INTRINSIC[name], "?")
-            if own != "?" and got != [own]:
+            if own == "?":
+                # a certificate's algorithm / length may be derived from its content; anything else
+                # has no such field
+                if entry["otype"] != "Certificate":
+                    add(name, "unexpected-attribute", "object has no such field, reported %s" % short(got))
+            elif got != [own]:
                 add(name, "differs-from-object", "object has %r, attribute reports %s" % (own, short(got)))
             continue
         if name in DEFAULTS:
@@ -869,19 +874,6 @@ class Others(object):
 
 
 # ============================================================================= key pair oracle
-def rsa_public_numbers(fmt, der):
-    from cryptography.hazmat.primitives import serialization as ser
-    if fmt == "PKCS_1":
-        try:
-            k = ser.load_der_public_key(der)
-        except Exception:
-            # PKCS#1 RSAPublicKey wrapped by hand into SubjectPublicKeyInfo is what some stacks need
-            raise
-    else:
-        k = ser.load_der_public_key(der)
-    return k.public_numbers()
-
-
 def keypair_consistent(pub, priv, length):
     """(ok, text).  Uses the `cryptography` package only (independent of kmip)."""
     from cryptography.hazmat.primitives import serialization as ser
